@@ -398,6 +398,8 @@ pub struct VmGreenThread {
     id: u64,
     shared: Arc<VmSharedReadonly>,
     new_threads_sender: Sender<Box<VmGreenThread>>,
+    #[cfg(feature = "abra_verif")]
+    verif: crate::verif::ThreadCounters,
 }
 
 impl VmGreenThread {
@@ -430,6 +432,8 @@ impl VmGreenThread {
             id: new_thread_id(),
             shared,
             new_threads_sender,
+            #[cfg(feature = "abra_verif")]
+            verif: Default::default(),
         }
     }
 
@@ -1049,16 +1053,22 @@ impl Value {
 
     unsafe fn get_object_header<'a>(&self) -> &'a mut ObjectHeader {
         debug_assert!(self.1.is_pointer());
+        #[cfg(feature = "abra_verif")]
+        crate::verif::check_live(self.0 as usize, "get_object_header");
         unsafe { &mut *(self.0 as *mut ObjectHeader) }
     }
 
     fn get_struct<'a>(&self, _vm: &mut VmGreenThread) -> &'a StructObject {
         self.check_type(_vm, ValueTag::Struct);
+        #[cfg(feature = "abra_verif")]
+        crate::verif::check_live(self.0 as usize, "struct");
         unsafe { &*(self.0 as *const StructObject) }
     }
 
     unsafe fn get_struct_mut<'a>(&self, _vm: &mut VmGreenThread) -> &'a mut StructObject {
         self.check_type(_vm, ValueTag::Struct);
+        #[cfg(feature = "abra_verif")]
+        crate::verif::check_live(self.0 as usize, "struct");
         unsafe { &mut *(self.0 as *mut StructObject) }
     }
 
@@ -1067,6 +1077,8 @@ impl Value {
         Self: Sized,
     {
         self.check_type(_vm, ValueTag::Array);
+        #[cfg(feature = "abra_verif")]
+        crate::verif::check_live(self.0 as usize, "array");
         unsafe { &*(self.0 as *const ArrayObject) }
     }
 
@@ -1075,6 +1087,8 @@ impl Value {
         Self: Sized,
     {
         self.check_type(_vm, ValueTag::Array);
+        #[cfg(feature = "abra_verif")]
+        crate::verif::check_live(self.0 as usize, "array");
         unsafe { &mut *(self.0 as *mut ArrayObject) }
     }
 
@@ -1083,6 +1097,8 @@ impl Value {
         Self: Sized,
     {
         self.check_type(_vm, ValueTag::Channel);
+        #[cfg(feature = "abra_verif")]
+        crate::verif::check_live(self.0 as usize, "channel");
         unsafe { &*(self.0 as *const ChannelObject) }
     }
 
@@ -1091,6 +1107,8 @@ impl Value {
         Self: Sized,
     {
         self.check_type(_vm, ValueTag::Channel);
+        #[cfg(feature = "abra_verif")]
+        crate::verif::check_live(self.0 as usize, "channel");
         unsafe { &mut *(self.0 as *mut ChannelObject) }
     }
 
@@ -1099,11 +1117,15 @@ impl Value {
         Self: Sized,
     {
         self.check_type(_vm, ValueTag::Variant);
+        #[cfg(feature = "abra_verif")]
+        crate::verif::check_live(self.0 as usize, "variant");
         unsafe { &mut *(self.0 as *mut EnumObject) }
     }
 
     pub fn view_string<'a>(&self, _vm: &VmGreenThread) -> &'a str {
         self.check_type(_vm, ValueTag::String);
+        #[cfg(feature = "abra_verif")]
+        crate::verif::check_live(self.0 as usize, "string");
         let so = unsafe { &*(self.0 as *const StringObject) };
         &so.str
     }
@@ -1231,6 +1253,14 @@ struct ObjectHeader {
 
 impl ObjectHeader {
     unsafe fn dealloc(&mut self, heap_size: &mut usize) {
+        #[cfg(feature = "abra_verif")]
+        if crate::verif::quarantine_on() {
+            *heap_size -= self.nbytes();
+            crate::verif::note_quarantined(self as *mut Self as usize);
+            return;
+        } else {
+            crate::verif::note_freed(self as *mut Self as usize);
+        }
         let kind = self.kind;
         match kind {
             ObjectKind::String => {
@@ -1349,6 +1379,8 @@ impl StructObject {
             }
 
             vm.heap_list.push(obj as *mut ObjectHeader);
+            #[cfg(feature = "abra_verif")]
+            vm.verif_note_alloc(obj as usize, "struct");
             if vm.gc_state == GcState::Marking {
                 vm.gray_stack.push(obj as *mut ObjectHeader);
             }
@@ -1416,6 +1448,8 @@ impl ArrayObject {
 
         vm.heap_list
             .push(arr as *mut ArrayObject as *mut ObjectHeader);
+        #[cfg(feature = "abra_verif")]
+        vm.verif_note_alloc(arr as *mut ArrayObject as usize, "array");
         if vm.gc_state == GcState::Marking {
             vm.gray_stack
                 .push(arr as *mut ArrayObject as *mut ObjectHeader);
@@ -1516,6 +1550,8 @@ impl ChannelObject {
 
         vm.heap_list
             .push(chan as *mut ChannelObject as *mut ObjectHeader);
+        #[cfg(feature = "abra_verif")]
+        vm.verif_note_alloc(chan as *mut ChannelObject as usize, "channel");
         if vm.gc_state == GcState::Marking {
             vm.gray_stack
                 .push(chan as *mut ChannelObject as *mut ObjectHeader);
@@ -1569,6 +1605,8 @@ impl EnumObject {
 
         vm.heap_list
             .push(variant as *mut EnumObject as *mut ObjectHeader);
+        #[cfg(feature = "abra_verif")]
+        vm.verif_note_alloc(variant as *mut EnumObject as usize, "enum");
         if vm.gc_state == GcState::Marking {
             vm.gray_stack
                 .push(variant as *mut EnumObject as *mut ObjectHeader);
@@ -1605,6 +1643,8 @@ impl StringObject {
 
         vm.heap_list
             .push(str as *mut StringObject as *mut ObjectHeader);
+        #[cfg(feature = "abra_verif")]
+        vm.verif_note_alloc(str as *mut StringObject as usize, "string");
         if vm.gc_state == GcState::Marking {
             vm.gray_stack
                 .push(str as *mut StringObject as *mut ObjectHeader);
@@ -1672,6 +1712,8 @@ impl VmGreenThread {
     #[inline(always)]
     fn step(&mut self) -> bool {
         let instr = self.shared.program[self.pc.get()];
+        #[cfg(feature = "abra_verif")]
+        self.verif_on_step(instr);
 
         self.pc.0 += 1;
         match instr {
@@ -2271,6 +2313,8 @@ impl VmGreenThread {
             }
             Instr::ConstructChannel => {
                 let ptr = ChannelObject::new(self);
+                #[cfg(feature = "abra_verif")]
+                self.verif_on_chan_new(ptr);
                 self.push(ptr);
             }
             Instr::SpawnTask(ncaptures, target) => {
@@ -2281,9 +2325,17 @@ impl VmGreenThread {
                 // TODO: must be made incremental
                 for capture in captures {
                     let copied_val = capture.deep_copy(&mut new_thread);
+                    #[cfg(feature = "abra_verif")]
+                    new_thread.verif_check_owned(copied_val, "cross_heap_capture");
                     new_thread.push(copied_val);
                 }
                 // new_thread.stack_base += ncaptures as usize;
+                #[cfg(feature = "abra_verif")]
+                crate::verif::emit(crate::verif::Event::Spawn {
+                    parent: self.id,
+                    child: new_thread.id,
+                    ncaptures,
+                });
                 self.new_threads_sender.send(new_thread.into()).unwrap();
             }
             Instr::ChannelRead => {
@@ -2293,17 +2345,23 @@ impl VmGreenThread {
                 match read_val {
                     Some(read_val) => {
                         let read_val = read_val.into_value(self);
+                        #[cfg(feature = "abra_verif")]
+                        self.verif_on_chan_read(chan, Some(read_val));
                         self.push(read_val)
                     } // TODO: use registers
                     None => {
                         self.push(chan);
                         self.pc.0 -= 1;
+                        #[cfg(feature = "abra_verif")]
+                        self.verif_on_chan_read(chan, None);
                     }
                 }
             }
             Instr::ChannelWrite => {
                 let val = self.pop(); // TODO: use registers
                 let chan = self.pop(); // TODO: use registers
+                #[cfg(feature = "abra_verif")]
+                self.verif_on_chan_write(chan, val);
                 let chan = unsafe { chan.get_channel_mut(self) };
                 let message = ChannelMessage::from_value(val, self);
                 chan.write_value(message);
@@ -2467,6 +2525,11 @@ impl VmGreenThread {
             }
             Instr::HostFunc(eff) => {
                 self.pending_host_func = Some(eff);
+                #[cfg(feature = "abra_verif")]
+                crate::verif::emit(crate::verif::Event::HostPending {
+                    thread: self.id,
+                    func: eff,
+                });
                 return false;
             }
             Instr::CallForeign(_func_id) => {
@@ -2536,6 +2599,10 @@ impl VmGreenThread {
     // GARBAGE COLLECTION
 
     pub fn maybe_gc(&mut self) {
+        #[cfg(feature = "abra_verif")]
+        if self.verif_gc_step() {
+            return;
+        }
         match self.gc_state {
             GcState::Idle => {
                 let threshold = self.last_gc_heap_size * GC_PAUSE_FACTOR;
@@ -2557,6 +2624,11 @@ impl VmGreenThread {
 
     // TODO: this is not very incremental.
     fn start_mark_phase(&mut self) {
+        #[cfg(feature = "abra_verif")]
+        crate::verif::emit(crate::verif::Event::GcStart {
+            thread: self.id,
+            string_op_in_flight: self.string_op_index1 != 0 || self.string_op_index2 != 0,
+        });
         // mark roots gray
         for v in self.value_stack.iter() {
             Self::mark(v, &mut self.gray_stack, self.gc_visited);
@@ -2589,6 +2661,8 @@ impl VmGreenThread {
         while *batch > 0
             && let Some(header_ptr) = self.gray_stack.pop()
         {
+            #[cfg(feature = "abra_verif")]
+            crate::verif::check_live(header_ptr as usize, "process_gray");
             {
                 let header = unsafe { &mut *header_ptr };
                 header.visited = self.gc_visited;
@@ -2640,8 +2714,17 @@ impl VmGreenThread {
             }
             Self::mark(&self.string_operand1, &mut self.gray_stack, self.gc_visited);
             Self::mark(&self.string_operand2, &mut self.gray_stack, self.gc_visited);
+            #[cfg(feature = "abra_verif")]
+            if !self.gray_stack.is_empty() {
+                crate::verif::emit(crate::verif::Event::Probe {
+                    thread: self.id,
+                    name: "rescan_found_white_root",
+                });
+            }
         }
         if self.gray_stack.is_empty() {
+            #[cfg(feature = "abra_verif")]
+            self.verif_on_mark_done();
             self.gc_state = GcState::Sweeping { index: 0 };
         }
     }
@@ -2662,6 +2745,11 @@ impl VmGreenThread {
             if header.visited != self.gc_visited {
                 header.visited = self.gc_visited;
                 self.gray_stack.push(header);
+                #[cfg(feature = "abra_verif")]
+                crate::verif::emit(crate::verif::Event::Probe {
+                    thread: self.id,
+                    name: "barrier_greyed_child",
+                });
             }
         }
     }
@@ -2672,11 +2760,18 @@ impl VmGreenThread {
 
             while work_done < batch && *index < self.heap_list.len() {
                 let header_ptr = self.heap_list[*index];
+                #[cfg(feature = "abra_verif")]
+                crate::verif::check_live(header_ptr as usize, "sweep");
                 let header = unsafe { &mut *header_ptr };
                 work_done += header.nbytes();
 
                 if header.visited != self.gc_visited {
                     unsafe { header.dealloc(&mut self.heap_size) };
+                    #[cfg(feature = "abra_verif")]
+                    {
+                        self.verif.frees += 1;
+                        self.verif.freed_in_cycle += 1;
+                    }
 
                     self.heap_list.swap_remove(*index);
                 } else {
@@ -2689,6 +2784,8 @@ impl VmGreenThread {
             if *index >= self.heap_list.len() {
                 self.gc_state = GcState::Idle;
                 self.last_gc_heap_size = self.heap_size;
+                #[cfg(feature = "abra_verif")]
+                self.verif_on_sweep_done();
             }
         }
     }
@@ -2708,6 +2805,12 @@ impl VmGreenThread {
 
 impl Drop for VmGreenThread {
     fn drop(&mut self) {
+        #[cfg(feature = "abra_verif")]
+        crate::verif::emit(crate::verif::Event::ThreadDropped {
+            thread: self.id,
+            is_main: self.is_main,
+            heap_objects: self.heap_list.len(),
+        });
         for header_ptr in &self.heap_list {
             let header = unsafe { &mut **header_ptr };
             unsafe { header.dealloc(&mut self.heap_size) };
@@ -2798,6 +2901,398 @@ impl Display for VmErrorKind {
             }
             VmErrorKind::InternalError(s) => {
                 write!(f, "internal error: {s}")
+            }
+        }
+    }
+}
+
+// Seams for deterministic simulation, see verif.rs. Everything below is compiled only with the
+// `abra_verif` feature.
+
+#[cfg(feature = "abra_verif")]
+impl Runtime {
+    /// every green thread the runtime currently owns (run queue order, then a finished main)
+    pub fn verif_threads(&self) -> Vec<crate::verif::ThreadInfo> {
+        self.run_queue
+            .iter()
+            .map(Box::as_ref)
+            .chain(self.finished_main_thread.as_deref())
+            .map(VmGreenThread::verif_info)
+            .collect()
+    }
+
+    /// run a complete collection on every thread, outside of any instruction
+    pub fn verif_full_gc(&mut self) {
+        for thread in self
+            .run_queue
+            .iter_mut()
+            .chain(self.finished_main_thread.iter_mut())
+        {
+            thread.verif_full_gc();
+        }
+    }
+}
+
+/// really free everything the quarantine holds; call after the runtimes that owned the objects
+/// have been dropped
+#[cfg(feature = "abra_verif")]
+pub fn verif_release_quarantine() {
+    let config = crate::verif::config();
+    crate::verif::set_config(crate::verif::Config {
+        quarantine: false,
+        ..config
+    });
+    for addr in crate::verif::take_quarantine() {
+        let mut ignored = usize::MAX / 2;
+        unsafe { (*(addr as *mut ObjectHeader)).dealloc(&mut ignored) };
+    }
+    crate::verif::set_config(config);
+}
+
+#[cfg(feature = "abra_verif")]
+impl VmGreenThread {
+    fn verif_phase(&self) -> crate::verif::GcPhase {
+        match self.gc_state {
+            GcState::Idle => crate::verif::GcPhase::Idle,
+            GcState::Marking => crate::verif::GcPhase::Marking,
+            GcState::Sweeping { .. } => crate::verif::GcPhase::Sweeping,
+        }
+    }
+
+    fn verif_string_op_in_flight(&self) -> bool {
+        self.string_op_index1 != 0 || self.string_op_index2 != 0
+    }
+
+    pub fn verif_is_main(&self) -> bool {
+        self.is_main
+    }
+
+    pub fn verif_info(&self) -> crate::verif::ThreadInfo {
+        crate::verif::ThreadInfo {
+            thread: self.id,
+            is_main: self.is_main,
+            phase: self.verif_phase(),
+            done: self.done,
+            failed: self.error.is_some(),
+            pending_host_func: self.pending_host_func,
+            heap_size: self.heap_size,
+            heap_objects: self.heap_list.len(),
+            stack_len: self.value_stack.len(),
+            string_op_in_flight: self.verif_string_op_in_flight(),
+            counters: self.verif,
+        }
+    }
+
+    /// canonical rendering of a value (structure and contents, no addresses)
+    pub fn verif_digest(&self, v: Value) -> String {
+        let mut out = String::new();
+        Self::verif_digest_into(v, &mut out);
+        out
+    }
+
+    fn verif_note_alloc(&mut self, addr: usize, kind: &'static str) {
+        self.verif.allocs += 1;
+        crate::verif::note_alloc(addr, kind, self.id);
+    }
+
+    #[inline(always)]
+    fn verif_on_step(&mut self, instr: Instr) {
+        crate::verif::count_step();
+        if crate::verif::has_controller() {
+            crate::verif::emit(crate::verif::Event::Step {
+                thread: self.id,
+                is_main: self.is_main,
+                pc: self.pc.0,
+                instr,
+                phase: self.verif_phase(),
+                string_op_in_flight: self.verif_string_op_in_flight(),
+            });
+        }
+    }
+
+    fn verif_chan_ordinal(chan: Value, fresh: bool) -> u64 {
+        let obj = unsafe { &*(chan.0 as *const ChannelObject) };
+        crate::verif::chan_ordinal(Arc::as_ptr(&obj.data) as usize, fresh)
+    }
+
+    fn verif_on_chan_new(&mut self, ptr: *mut ChannelObject) {
+        let chan = Self::verif_chan_ordinal(Value::from(ptr), true);
+        crate::verif::emit(crate::verif::Event::ChanNew {
+            thread: self.id,
+            chan,
+        });
+    }
+
+    fn verif_on_chan_write(&mut self, chan: Value, val: Value) {
+        if !crate::verif::has_controller() {
+            return;
+        }
+        chan.check_type(self, ValueTag::Channel);
+        crate::verif::check_live(chan.0 as usize, "channel");
+        let digest = self.verif_digest(val);
+        crate::verif::emit(crate::verif::Event::ChanWrite {
+            thread: self.id,
+            chan: Self::verif_chan_ordinal(chan, false),
+            digest: &digest,
+        });
+    }
+
+    fn verif_on_chan_read(&mut self, chan: Value, val: Option<Value>) {
+        if !crate::verif::has_controller() {
+            return;
+        }
+        let chan = Self::verif_chan_ordinal(chan, false);
+        match val {
+            Some(val) => {
+                self.verif_check_owned(val, "cross_heap_read");
+                let digest = self.verif_digest(val);
+                crate::verif::emit(crate::verif::Event::ChanRead {
+                    thread: self.id,
+                    chan,
+                    digest: &digest,
+                });
+            }
+            None => crate::verif::emit(crate::verif::Event::ChanReadBlocked {
+                thread: self.id,
+                chan,
+            }),
+        }
+    }
+
+    fn verif_digest_into(v: Value, out: &mut String) {
+        use std::fmt::Write;
+        if out.len() > 4096 {
+            return;
+        }
+        if v.1.is_pointer() {
+            if let Some(info) = crate::verif::freed_info(v.0 as usize) {
+                let _ = write!(out, "<RECLAIMED object#{}>", info.obj.ordinal);
+                return;
+            }
+        }
+        match v.1 {
+            ValueTag::Int => {
+                let _ = write!(out, "{}", v.0 as AbraInt);
+            }
+            ValueTag::Float => {
+                let _ = write!(out, "f{:016x}", v.0);
+            }
+            ValueTag::Bool => {
+                let _ = write!(out, "{}", v.0 != 0);
+            }
+            ValueTag::Addr => {
+                let _ = write!(out, "@{}", v.0);
+            }
+            ValueTag::String => {
+                let so = unsafe { &*(v.0 as *const StringObject) };
+                let _ = write!(out, "{:?}", so.str);
+            }
+            ValueTag::Struct => {
+                let obj = unsafe { &*(v.0 as *const StructObject) };
+                out.push('{');
+                for (i, f) in obj.get_fields().iter().enumerate() {
+                    if i > 0 {
+                        out.push(',');
+                    }
+                    Self::verif_digest_into(*f, out);
+                }
+                out.push('}');
+            }
+            ValueTag::Array => {
+                let obj = unsafe { &*(v.0 as *const ArrayObject) };
+                out.push('[');
+                for (i, f) in obj.data.iter().enumerate() {
+                    if i > 0 {
+                        out.push(',');
+                    }
+                    Self::verif_digest_into(*f, out);
+                }
+                out.push(']');
+            }
+            ValueTag::Variant => {
+                let obj = unsafe { &*(v.0 as *const EnumObject) };
+                let _ = write!(out, "#{}(", obj.tag);
+                Self::verif_digest_into(obj.val, out);
+                out.push(')');
+            }
+            ValueTag::Channel => {
+                let _ = write!(out, "chan{}", Self::verif_chan_ordinal(v, false));
+            }
+        }
+    }
+
+    /// the collector is driven by the installed controller, if it wants to
+    fn verif_gc_step(&mut self) -> bool {
+        use crate::verif::{GcAction, GcCtx};
+        if !crate::verif::has_controller() {
+            return false;
+        }
+        let ctx = GcCtx {
+            thread: self.id,
+            is_main: self.is_main,
+            phase: self.verif_phase(),
+            pc: self.pc.0,
+            next_instr: self.shared.program[self.pc.get()],
+            string_op_in_flight: self.verif_string_op_in_flight(),
+            heap_size: self.heap_size,
+            heap_objects: self.heap_list.len(),
+            gray_len: self.gray_stack.len(),
+            stack_len: self.value_stack.len(),
+        };
+        match crate::verif::ask(&ctx) {
+            GcAction::Default => false,
+            GcAction::Do { start, mark, sweep } => {
+                if start && self.gc_state == GcState::Idle {
+                    self.start_mark_phase();
+                }
+                let mut n = 0;
+                while n < mark && self.gc_state == GcState::Marking {
+                    // a byte budget of one processes exactly one grey object
+                    let mut one = 1usize;
+                    self.process_gray(&mut one);
+                    n += 1;
+                }
+                let mut n = 0;
+                while n < sweep && matches!(self.gc_state, GcState::Sweeping { .. }) {
+                    // a byte budget of one visits exactly one object
+                    self.sweep(1);
+                    n += 1;
+                }
+                true
+            }
+        }
+    }
+
+    fn verif_full_gc(&mut self) {
+        for _ in 0..2 {
+            if self.gc_state == GcState::Idle {
+                self.start_mark_phase();
+            }
+            while self.gc_state == GcState::Marking {
+                let mut all = usize::MAX;
+                self.process_gray(&mut all);
+            }
+            while matches!(self.gc_state, GcState::Sweeping { .. }) {
+                self.sweep(usize::MAX);
+            }
+        }
+    }
+
+    /// what the program can still reach: the operand stack, and the operands of a string
+    /// instruction only while it is in flight
+    fn verif_roots(&self) -> Vec<Value> {
+        let mut roots = self.value_stack.clone();
+        if self.verif_string_op_in_flight() {
+            roots.push(self.string_operand1);
+            roots.push(self.string_operand2);
+        }
+        roots
+    }
+
+    /// independent trace: every heap object reachable from `roots` (reclaimed ones included,
+    /// but not traversed)
+    fn verif_reachable(roots: Vec<Value>) -> Vec<usize> {
+        let mut seen = utils::hash::HashSet::default();
+        let mut out = vec![];
+        let mut work = roots;
+        while let Some(v) = work.pop() {
+            if !v.1.is_pointer() {
+                continue;
+            }
+            let addr = v.0 as usize;
+            if !seen.insert(addr) {
+                continue;
+            }
+            if crate::verif::freed_info(addr).is_some() {
+                out.push(addr);
+                continue;
+            }
+            let header = unsafe { &*(addr as *const ObjectHeader) };
+            if header.no_gc {
+                continue;
+            }
+            out.push(addr);
+            match header.kind {
+                ObjectKind::String | ObjectKind::Channel => {}
+                ObjectKind::Enum => work.push(unsafe { &*(addr as *const EnumObject) }.val),
+                ObjectKind::Struct => {
+                    work.extend(unsafe { &*(addr as *const StructObject) }.get_fields())
+                }
+                ObjectKind::Array => work.extend(&unsafe { &*(addr as *const ArrayObject) }.data),
+            }
+        }
+        out
+    }
+
+    /// probe: does `v` reach an object that belongs to another thread's heap?
+    fn verif_check_owned(&self, v: Value, name: &'static str) {
+        if !crate::verif::has_controller() {
+            return;
+        }
+        let foreign = Self::verif_reachable(vec![v]).into_iter().any(|addr| {
+            match crate::verif::obj_info(addr) {
+                Some(info) => info.owner != self.id,
+                None => true,
+            }
+        });
+        if foreign {
+            crate::verif::emit(crate::verif::Event::Probe {
+                thread: self.id,
+                name,
+            });
+        }
+    }
+
+    /// marking has finished. Probe (not a violation): did the collector mark everything an
+    /// independent trace can reach?
+    fn verif_on_mark_done(&mut self) {
+        let checked = crate::verif::selfcheck_due();
+        let mut unmarked_reachable = 0;
+        if checked {
+            for addr in Self::verif_reachable(self.verif_roots()) {
+                if crate::verif::freed_info(addr).is_some() {
+                    continue;
+                }
+                let header = unsafe { &*(addr as *const ObjectHeader) };
+                if header.visited != self.gc_visited {
+                    unmarked_reachable += 1;
+                }
+            }
+        }
+        self.verif.freed_in_cycle = 0;
+        crate::verif::emit(crate::verif::Event::GcMarkDone {
+            thread: self.id,
+            checked,
+            unmarked_reachable,
+        });
+    }
+
+    /// a sweep has finished: nothing the program can still reach may have been reclaimed
+    fn verif_on_sweep_done(&mut self) {
+        self.verif.cycles += 1;
+        crate::verif::emit(crate::verif::Event::GcSweepDone {
+            thread: self.id,
+            freed: self.verif.freed_in_cycle,
+            live: self.heap_list.len(),
+        });
+        if !crate::verif::quarantine_on() || !crate::verif::selfcheck_due() {
+            return;
+        }
+        for addr in Self::verif_reachable(self.verif_roots()) {
+            if let Some(info) = crate::verif::freed_info(addr) {
+                let msg = format!(
+                    "{} reachable-object-reclaimed object#{} kind={} owner=t{} allocated at step {} reclaimed at step {} still reachable from thread t{} when its sweep finished at step {}",
+                    crate::verif::VIOLATION_PREFIX,
+                    info.obj.ordinal,
+                    info.obj.kind,
+                    info.obj.owner,
+                    info.obj.alloc_step,
+                    info.free_step,
+                    self.id,
+                    crate::verif::steps()
+                );
+                crate::verif::record_violation(msg.clone());
+                panic!("{msg}");
             }
         }
     }
